@@ -540,7 +540,7 @@ def body_faultinj(case, rec):
         return dict(
             key=R.graph_key(s["canon_graph"], nkeys, ekeys),
             count=s["automorphism_count"],
-            orbits=R.partition(s["orbits"]),
+            orbits=R.partition(set(map(frozenset, s["orbits"]))),  # as a set: repeated classes are another clause
             maps=R.mapset(s["mappings"]),
             sig_calls=sig_calls[0],
             id_calls=stt["calls"],
